@@ -359,3 +359,47 @@ Example ex_ring_wrap :
   /\ LexerPrev.lex_obs (repeat 32%Z 41 ++ [110; 32; 45; 49; 32])%list%Z = ([(12, [110]); (14, [45; 49])], true)%Z
   /\ LexerPrev.lexp_obs (repeat 32%Z 41 ++ [110; 32; 45; 49; 32])%list%Z = ([(12, [110]); (14, [45; 49])], true)%Z.
 Proof. vm_compute. repeat split; reflexivity. Qed.
+
+(* ===== the CnodeStack of Pratt.Expression (postfix chains in nested positions) =====
+   arrayOpMunchLeft / dotOpMunchLeft read their operator token from pr.CnodeStack[0]; Model/PrattStack.v
+   mirrors the push at entry, the overwrite in the led loop and the pop at exit.  For EVERY table, fuel,
+   binding power, token list and initial stack contents: Expression with the stack computes exactly the
+   tree of the stack-free model (each index / field node carries its own token, at every nesting depth)
+   and leaves the stack as it found it. *)
+Require ZV.Model.PrattStack ZV.Proofs.PrattStackProofs.
+Theorem cnode_stack_top_is_operator :
+  forall (tok : Type) lbp nud led is_else led_err eof_tok (fuel : nat) (rbp : Z) (st ts : list tok),
+  PrattStack.exprS tok lbp nud led is_else led_err eof_tok fuel rbp st ts
+  = PrattStackProofs.with_stack tok st (Pratt.expr tok lbp nud led is_else led_err eof_tok fuel rbp ts).
+Proof. exact PrattStackProofs.cnode_stack_top_is_operator_lemma. Qed.
+Print Assumptions cnode_stack_top_is_operator.
+
+(* non-vacuity: {1 + pts[1] .x} with something else on the stack: the field node holds .x, not the outer + *)
+Example ex_nested_postfix_chain :
+  PrattStack.exprS tok (lbp_of T_E T_K) (nud_of T_E) (led_of T_E T_K) is_else nf None 20 0 [TSemi]
+    [TInt 1; s "+"; s "pts"; TArr 1; TDotSym ".x"]
+  = ROk (Bin (s "+") (Leaf (TInt 1)) (Post (TDotSym ".x") (Post (TArr 1) (Leaf (s "pts")))), [], [TSemi]).
+Proof. vm_compute. reflexivity. Qed.
+
+(* sign versus operator: a '-' directly followed by a digit, after ANY text t (any length / ring position)
+   that leaves the lexer in normal mode with a well-formed pending atom (dump_buffer succeeds) which is not
+   a mantissa followed by e / E, starts the negative literal exactly when the last rune of t is in
+   canStartSignedNumberAfter (0 at the start of a text); otherwise the symbol '-' is emitted and the digit
+   starts the next atom *)
+Require ZV.Proofs.LexerSign.
+Theorem sign_rule : forall (t : list Z) (s s1 : Lexer.lstate) (d : Z),
+  Lexer.lex_all Lexer.init_lstate t = Lexer.LOk s -> Lexer.l_state s = Lexer.LNormal ->
+  Lexer.dump_buffer s = Some s1 ->
+  ((last t 0 =? 101) || (last t 0 =? 69))%Z && Lexer.sci_prefix_ok (Lexer.l_buffer s) = false ->
+  (48 <= d <= 57)%Z ->
+  exists s', Lexer.lex_all s [45; d]%Z = Lexer.LOk s' /\ Lexer.l_state s' = Lexer.LNormal /\
+    if Lexer.can_start_signed_after (last t 0%Z)
+    then Lexer.l_buffer s' = [45; d]%Z /\ Lexer.l_tokens s' = Lexer.l_tokens s1
+    else Lexer.l_buffer s' = [d] /\ Lexer.l_tokens s' = (Lexer.l_tokens s1 ++ [Lexer.mkTok Lexer.TSymbol [45%Z]])%list.
+Proof. exact LexerSign.sign_rule_lemma. Qed.
+Print Assumptions sign_rule.
+Example ex_sign_rule :
+  LexerPrev.lex_obs [97; 45; 49; 32]%Z = ([(12, [97]); (12, [45]); (14, [49])], true)%Z
+  /\ LexerPrev.lex_obs [97; 32; 45; 49; 32]%Z = ([(12, [97]); (14, [45; 49])], true)%Z
+  /\ LexerPrev.lex_obs [97; 42; 45; 49; 32]%Z = ([(12, [97]); (12, [42]); (14, [45; 49])], true)%Z.
+Proof. vm_compute. repeat split; reflexivity. Qed.
